@@ -40,6 +40,10 @@ Writes == Vals \cup {NoWrite}
 MinVal == CHOOSE v \in Vals : \A u \in Vals : v <= u
 
 \* ------------------------------------------------------ op enumeration --
+\* ways to consume the rest of a cursor that has `m` items left: plain (none), nth inside the
+\* range, nth just beyond / far beyond the end, last, fold
+FinsFor(m) == {<<"none", 0>>, <<"last", 0>>, <<"fold", 0>>} \cup {<<"nth", j>> : j \in {0, 1, m, m + 2}}
+
 CoreOps(ts) ==
   {[name |-> nm, k |-> ArgK(1, c, r), v |-> ArgV(1, v)] :
       nm \in {"insert", "insert_key_value", "checked_insert"}, c \in Classes, r \in Vers, v \in Vals}
@@ -49,7 +53,7 @@ CoreOps(ts) ==
       nm \in {"get_mut", "index_mut"}, c \in Classes, f \in {0, 1}, w \in Writes}
   \cup {[name |-> "retain", keep |-> K, w |-> w] : K \in SUBSET Classes, w \in Writes}
   \cup {[name |-> "clear"], [name |-> "drop"]}
-  \cup {[name |-> "drain", n |-> n, end |-> e] : n \in 0..Len(ts), e \in {"drop", "forget"}}
+  \cup UNION {{[name |-> "drain", n |-> n, end |-> e, fin |-> f[1], j |-> f[2]] : f \in FinsFor(Len(ts) - n), e \in {"drop", "forget"}} : n \in 0..Len(ts)}
 
 UncheckedOps(ts) ==
   {[name |-> "insert_unchecked", k |-> ArgK(1, c, r), v |-> ArgV(1, v)] :
@@ -58,12 +62,13 @@ UncheckedOps(ts) ==
       ks \in {q \in UNION {[1..j -> Classes] : j \in 0..MaxKs} : ~HasDupKeys(q)}, w \in Writes}
 
 CursorOps(ts) ==
-  {[name |-> "cursor", kind |-> kd, n |-> n, w |-> w, end |-> "drop"] :
-      kd \in BorrowKinds \ MutKinds, n \in 0..Len(ts), w \in {NoWrite}}
-  \cup {[name |-> "cursor", kind |-> kd, n |-> n, w |-> w, end |-> "drop"] :
-      kd \in MutKinds, n \in 0..Len(ts), w \in Writes}
-  \cup {[name |-> "cursor", kind |-> kd, n |-> n, w |-> NoWrite, end |-> e] :
-      kd \in ConsumeKinds, n \in 0..Len(ts), e \in {"drop", "forget"}}
+  UNION {
+  {[name |-> "cursor", kind |-> kd, n |-> n, w |-> w, end |-> "drop", fin |-> f[1], j |-> f[2]] :
+      kd \in BorrowKinds \ MutKinds, w \in {NoWrite}, f \in FinsFor(Len(ts) - n)}
+  \cup {[name |-> "cursor", kind |-> kd, n |-> n, w |-> w, end |-> "drop", fin |-> f[1], j |-> f[2]] :
+      kd \in MutKinds, w \in Writes, f \in FinsFor(Len(ts) - n)}
+  \cup {[name |-> "cursor", kind |-> kd, n |-> n, w |-> NoWrite, end |-> e, fin |-> f[1], j |-> f[2]] :
+      kd \in ConsumeKinds, e \in {"drop", "forget"}, f \in FinsFor(Len(ts) - n)} : n \in 0..Len(ts)}
 
 EntryOps(ts) ==
   {[name |-> "entry", m |-> m, k |-> ArgK(1, c, r), v |-> ArgV(1, v), w |-> w] :
@@ -114,9 +119,9 @@ SetCoreOps(ts) ==
       nm \in {"s_contains", "s_get", "s_remove", "s_take"}, c \in Classes, f \in {0, 1}}
   \cup {[name |-> "s_retain", keep |-> K] : K \in SUBSET Classes}
   \cup {[name |-> "s_clear"], [name |-> "s_drop"]}
-  \cup {[name |-> "s_drain", n |-> n, end |-> e] : n \in 0..Len(ts), e \in {"drop", "forget"}}
-  \cup {[name |-> "s_iter", n |-> n] : n \in 0..Len(ts)}
-  \cup {[name |-> "s_into_iter", n |-> n, end |-> e] : n \in 0..Len(ts), e \in {"drop", "forget"}}
+  \cup UNION {{[name |-> "s_drain", n |-> n, end |-> e, fin |-> f[1], j |-> f[2]] : f \in FinsFor(Len(ts) - n), e \in {"drop", "forget"}} : n \in 0..Len(ts)}
+  \cup UNION {{[name |-> "s_iter", n |-> n, fin |-> f[1], j |-> f[2]] : f \in FinsFor(Len(ts) - n)} : n \in 0..Len(ts)}
+  \cup UNION {{[name |-> "s_into_iter", n |-> n, end |-> e, fin |-> f[1], j |-> f[2]] : f \in FinsFor(Len(ts) - n), e \in {"drop", "forget"}} : n \in 0..Len(ts)}
   \cup {[name |-> "s_fmt", style |-> st] : st \in {"debug", "alt", "display"}}
 
 SetBulkOps(ts) ==
@@ -196,8 +201,8 @@ OwnedRetK(op, r) ==
     [] op.name \in {"insert_key_value", "remove_entry"} /\ r.ret[1] = "ent" -> {r.ret[2]}
     [] op.name \in {"s_replace", "s_take"} /\ r.ret[1] = "key" -> {r.ret[2]}
     [] op.name = "drain" \/ (op.name = "cursor" /\ op.kind \in {"into_iter", "into_keys"})
-         -> {r.ret.yield[i][1] : i \in 1..Len(r.ret.yield)}
-    [] op.name \in {"s_drain", "s_into_iter"} -> {r.ret.yield[i][1] : i \in 1..Len(r.ret.yield)}
+         -> {r.ret.yield[i][1] : i \in 1..Len(r.ret.yield)} \cup {r.ret.fin.r[i][1] : i \in 1..Len(r.ret.fin.r)}
+    [] op.name \in {"s_drain", "s_into_iter"} -> {r.ret.yield[i][1] : i \in 1..Len(r.ret.yield)} \cup {r.ret.fin.r[i][1] : i \in 1..Len(r.ret.fin.r)}
     [] op.name = "entry" /\ op.m = "occ_remove_entry" /\ r.ret[1] = "occ" -> {r.ret[2]}
     [] op.name = "entry" /\ op.m = "vac_into_key" /\ r.ret[1] = "vack" -> {r.ret[2]}
     [] OTHER -> {}
@@ -207,8 +212,8 @@ OwnedRetV(op, r) ==
     [] op.name = "checked_insert" /\ r.ret[1] = "some_val" -> {r.ret[2]}
     [] op.name \in {"insert_key_value", "remove_entry"} /\ r.ret[1] = "ent" -> {r.ret[5]}
     [] op.name = "drain" \/ (op.name = "cursor" /\ op.kind = "into_iter")
-         -> {r.ret.yield[i][4] : i \in 1..Len(r.ret.yield)}
-    [] op.name = "cursor" /\ op.kind = "into_values" -> {r.ret.yield[i][1] : i \in 1..Len(r.ret.yield)}
+         -> {r.ret.yield[i][4] : i \in 1..Len(r.ret.yield)} \cup {r.ret.fin.r[i][4] : i \in 1..Len(r.ret.fin.r)}
+    [] op.name = "cursor" /\ op.kind = "into_values" -> {r.ret.yield[i][1] : i \in 1..Len(r.ret.yield)} \cup {r.ret.fin.r[i][1] : i \in 1..Len(r.ret.fin.r)}
     [] op.name = "entry" /\ op.m \in {"occ_insert", "occ_remove"} /\ r.ret[1] = "occ" -> {r.ret[2]}
     [] op.name = "entry" /\ op.m = "occ_remove_entry" /\ r.ret[1] = "occ" -> {r.ret[5]}
     [] OTHER -> {}
